@@ -281,8 +281,16 @@ __dnf(dexpr_t root)
 	switch (root->type) {
 	case DEX_CONJ: {
 		/* check if one of the children is a disjunction */
-		dex_type_t rlt = root->left->type;
-		dex_type_t rrt = root->right->type;
+		dex_type_t rlt;
+		dex_type_t rrt;
+
+		/* normalise the operands first, a disjunction further down
+		 * surfaces as the operand's type and must be distributed
+		 * here as well, as in a&(b|c)&d */
+		__dnf(root->left);
+		__dnf(root->right);
+		rlt = root->left->type;
+		rrt = root->right->type;
 
 		if (rlt == DEX_DISJ && rrt == DEX_DISJ) {
 			/* complexestest case
